@@ -587,6 +587,13 @@ func OpenWith(path string, vLogs []appendable.Appendable, txLog, cLog appendable
 			break
 		}
 
+		// values are written into different files than the transaction itself,
+		// they may have not been persisted when the store was abruptly closed
+		if !embeddedValues && !precommittedValuesAvailable(tx, vLogs) {
+			opts.logger.Infof("%v: values are not available, discarding pre-committed transaction: %d", ErrCorruptedData, precommittedTxID+1)
+			break
+		}
+
 		precommittedTxID++
 		precommittedAlh = tx.header.Alh()
 
@@ -777,6 +784,36 @@ func OpenWith(path string, vLogs []appendable.Appendable, txLog, cLog appendable
 	}
 
 	return store, nil
+}
+
+// precommittedValuesAvailable checks the values referenced by a pre-committed
+// transaction can be read back from the value logs and match their digests
+func precommittedValuesAvailable(tx *Tx, vLogs []appendable.Appendable) bool {
+	for _, e := range tx.Entries() {
+		if e.vLen == 0 {
+			continue
+		}
+
+		vLogID, offset := decodeOffset(e.vOff)
+
+		if vLogID == 0 {
+			// value was not stored on any vlog i.e. a truncated transaction was replicated
+			continue
+		}
+
+		if int(vLogID) > len(vLogs) {
+			return false
+		}
+
+		b := make([]byte, e.vLen)
+
+		_, err := vLogs[vLogID-1].ReadAt(b, offset)
+		if err != nil || sha256.Sum256(b) != e.hVal {
+			return false
+		}
+	}
+
+	return true
 }
 
 func (s *ImmuStore) syncer() {
